@@ -155,7 +155,9 @@ to the length of the shortest input list."
 
 (defmacro or (x y)
   "Logical or."
-  (list 'if x x y))
+  ((lambda (value)
+     (list (list 'lambda (list value) (list 'if value value y)) x))
+   (gensym)))
 
 (defmacro not (x)
   "Logical not."
